@@ -252,6 +252,12 @@ func (r *replication) replicate(c *conn, req *appendReq) error {
 				}
 				close(stopCh)
 				drainRespsTimeout(r.hbTimeout / 2)
+				if c.rwc != nil {
+					// the writer may have sent a request that it did not
+					// record, its response would stay unread. don't reuse conn
+					_ = c.rwc.Close()
+					c.rwc = nil
+				}
 				return errStop
 			case result = <-resultCh:
 			}
@@ -285,6 +291,10 @@ func (r *replication) replicate(c *conn, req *appendReq) error {
 				close(stopCh)
 				if resp.result == staleTerm {
 					drainRespsTimeout(r.hbTimeout / 2)
+					if c.rwc != nil {
+						_ = c.rwc.Close()
+						c.rwc = nil
+					}
 					return r.onAppendEntriesResp(resp, result.lastIndex) // notifies ldr and return errStop
 				}
 				if err = drainResps(); err != nil {
